@@ -183,7 +183,8 @@ def dropKey (k : String) (tok : String) : String :=
 /-- shutdown-race case (see harness `child_race`): `snap` emits of this thread had returned before
 shutdown began, `got` is what the appender delivered. Model: every behaviour of the Pipeline has
 `got ⊇ [0, snap)` (`C19_no_loss_at_shutdown_partial`), strictly increasing (`C19_per_thread_order`,
-`C19_exactly_once`); the observed outcome is replayed as a Pipeline schedule. -/
+`C19_exactly_once`); the observed outcome is replayed as a Pipeline schedule in which the writer's
+final drain ends on `Disconnected` (no `graceExpired` step: `graceEarly` stays false). -/
 def stepRace (s : St) (n : Nat) (app : String) (t : Nat) (res : List String) : Except String (St × List String) :=
   match (dropKey "snap" (res.getD 0 "")).toNat?, ranges? (dropKey "got" (res.getD 1 "")) with
   | some snap, some got =>
@@ -203,14 +204,14 @@ def stepRace (s : St) (n : Nat) (app : String) (t : Nat) (res : List String) : E
     let conc := (got.filter (· ≥ snap)).flatMap mk
     let late : List Pipeline.Step := if got.length < n then [.sendBegin ⟨t, n⟩] else []
     let fin : List Pipeline.Step := match consumer with
-      | .writer => [.seeFlag, .drainEmpty]
+      | .writer => [.seeFlag, .drainDisconnected]
       | .stream => [.seeDisconnected]
     let sd := match Pipeline.shutdownSteps s.guardEnd with
       | [a, b] => some (a, b)
       | _ => none
     match sd.bind (fun (a, b) => Pipeline.run (Pipeline.init 1 .block consumer) (pre ++ [a] ++ conc ++ [b] ++ late ++ fin)) with
     | some p =>
-      if p.phase == .exited && p.out.map (·.seq) == got && p.accepted == p.out && p.dropped.isEmpty then
+      if p.phase == .exited && !p.graceEarly && p.out.map (·.seq) == got && p.accepted == p.out && p.dropped.isEmpty then
         .ok (s, ["race-" ++ app, "race-guard-" ++ s.guardName, if got.length > snap then "race-concurrent-emits-delivered" else "race-exact",
                  if got.length < n then "race-late-emits-refused" else "race-all-before-close"])
       else .error "model=pipeline-out-differs"
